@@ -339,3 +339,348 @@ Proof.
   pose proof (rne_near (sc_q n d e) (sc_r n d e) (sc_den n d e) R) as [_ N]. cbv zeta in N.
   unfold m, m_of. cbv zeta. fold e. rewrite E. exact N.
 Qed.
+
+(* ---------- a decimal that denotes a representable value parses to exactly that value ---------- *)
+Theorem dec_exact : forall f neg m e M E, 0 < prec f -> 0 < m -> canonical f M E ->
+  (400 <? ndigits m + e) = false -> (ndigits m + e <? -400) = false ->
+  (if 0 <=? e then m * 10 ^ e * snd (rat_of M E) = fst (rat_of M E)
+   else m * snd (rat_of M E) = fst (rat_of M E) * 10 ^ (- e)) ->
+  dec_to_f f (DNum neg m e) = FFin neg M E.
+Proof.
+  intros f neg m e M E Hp Hm Hc G1 G2 Hv. unfold dec_to_f.
+  replace (m =? 0) with false by (symmetry; apply Z.eqb_neq; lia). cbv zeta. rewrite G1, G2.
+  destruct Hc as [[HM1 HM2] Hrest]. destruct (rat_of_pos M E HM1) as [Pn Pd].
+  rewrite <- (rnd_pos_fixpoint f neg M E Hp (conj (conj HM1 HM2) Hrest)).
+  destruct (0 <=? e) eqn:Ee.
+  - apply Z.leb_le in Ee. assert (0 < 10 ^ e) by (apply Z.pow_pos_nonneg; lia).
+    apply rnd_pos_ratio; try assumption; try nia.
+  - apply Z.leb_gt in Ee. assert (0 < 10 ^ (- e)) by (apply Z.pow_pos_nonneg; lia).
+    apply rnd_pos_ratio; try assumption; try nia.
+Qed.
+
+(* ---------- decimal seconds with at most 9 fractional digits -> Duration, exact to the nanosecond ---------- *)
+(* rounding a rational that lies strictly within 1/2 of an integer gives that integer *)
+Lemma rne_unique : forall q r den N, 0 < den -> 0 <= r < den ->
+  - den < 2 * (q * den + r) - 2 * N * den < den -> rne q r den = N.
+Proof.
+  intros q r den N Hd Hr H. unfold rne.
+  assert (q = N \/ q = N - 1) by nia.
+  destruct (Z.compare_spec (2 * r) den) as [C|C|C]; destruct H0 as [-> | ->]; try lia; try nia.
+Qed.
+
+Lemma pow2_mono : forall a b, 0 <= a <= b -> 2 ^ a <= 2 ^ b.
+Proof. intros. apply Z.pow_le_mono_r; lia. Qed.
+
+(* exponent and significand of the rounding in the normal range *)
+Lemma normal_range : forall f n d lo hi, 0 < prec f -> 0 < n -> 0 < d ->
+  ge2 n d lo -> lt2 n d hi -> emin f <= lo - prec f + 1 ->
+  let e := e_of f n d in
+  lo - prec f + 1 <= e <= hi - prec f /\ 2 ^ (prec f - 1) <= m_of f n d <= 2 ^ prec f.
+Proof.
+  intros f n d lo hi Hp Hn Hd Hlo Hhi Hemin e.
+  pose proof (e1_spec (prec f) n d Hp Hn Hd) as [G L]. set (e1 := e1_of (prec f) n d) in *.
+  assert (E1lo : lo - prec f + 1 <= e1).
+  { destruct (Z_lt_le_dec e1 (lo - prec f + 1)); [|assumption]. exfalso.
+    apply (ge2_lt2 n d (e1 + prec f - 1 + 1) Hd). split; [eapply ge2_mono; [| | |exact Hlo]; lia | exact L]. }
+  assert (E1hi : e1 <= hi - prec f).
+  { destruct (Z_lt_le_dec (hi - prec f) e1); [|assumption]. exfalso.
+    apply (ge2_lt2 n d hi Hd). split; [eapply ge2_mono; [| | |exact G]; lia | exact Hhi]. }
+  assert (Ee : e = e1) by (unfold e, e_of; fold e1; lia).
+  split; [lia|].
+  unfold m_of. cbv zeta. fold e. rewrite Ee.
+  destruct (sc_qr n d e1 Hn Hd) as [D [_ [R _]]].
+  pose proof (rne_near (sc_q n d e1) (sc_r n d e1) (sc_den n d e1) R) as [Nq _]. cbv zeta in Nq.
+  assert (Q1 : 2 ^ (prec f - 1) <= sc_q n d e1).
+  { apply (q_ge_pow n d e1 (prec f - 1) Hn Hd ltac:(lia)). replace (prec f - 1 + e1) with (e1 + prec f - 1) by lia. exact G. }
+  assert (Q2 : sc_q n d e1 < 2 ^ prec f).
+  { apply (q_lt_pow n d e1 (prec f) Hn Hd ltac:(lia)). replace (prec f + e1) with (e1 + prec f - 1 + 1) by lia. exact L. }
+  lia.
+Qed.
+
+Lemma dur_fin : forall M k ns, 0 < M -> Z.log2 M - k < 64 -> 0 <= k ->
+  - 2 ^ k < 2 * (M * 1000000000) - 2 * ns * 2 ^ k < 2 ^ k -> dur_of_f (FFin false M (- k)) = Some ns.
+Proof.
+  intros M k ns HM HL Hk H. unfold dur_of_f.
+  replace (64 <=? Z.log2 M + - k) with false by (symmetry; apply Z.leb_gt; lia).
+  rewrite (scaled_eta (M * 1000000000) 1 (- - k)).
+  assert (P : 0 < M * 1000000000) by lia.
+  destruct (sc_qr (M * 1000000000) 1 (- - k) P ltac:(lia)) as [D [E [R _]]].
+  destruct (scaled_nonneg (M * 1000000000) 1 (- - k) ltac:(lia)) as [_ [_ Dn]].
+  replace (- - k) with k in * by lia. rewrite Z.mul_1_l in Dn.
+  unfold sc_num in E. replace (k <? 0) with false in E by (symmetry; apply Z.ltb_ge; lia).
+  f_equal. apply rne_unique; [assumption | assumption |]. rewrite <- E, Dn. exact H.
+Qed.
+
+(* the conversion of a rational number of seconds n/d (2^-30 <= n/d < 2^20) whose nanosecond count ns = n/d * 10^9 is an integer:
+   rounding to f64 and Duration::from_secs_f64 give exactly ns *)
+Theorem dur_of_rnd_exact : forall n d ns, 0 < n -> 0 < d -> ns * d = n * 1000000000 ->
+  ge2 n d (-30) -> lt2 n d 20 -> dur_of_f (rnd_pos b64 false n d) = Some ns.
+Proof.
+  intros n d ns Hn Hd Hns Hlo Hhi.
+  pose proof (normal_range b64 n d (-30) 20 ltac:(reflexivity) Hn Hd Hlo Hhi ltac:(cbn; lia)) as [He HM].
+  cbv zeta in He. change (prec b64) with 53 in *.
+  pose proof (m_of_near b64 n d Hn Hd) as Near. cbv zeta in Near.
+  rewrite rnd_pos_unfold. set (e := e_of b64 n d) in *. set (M := m_of b64 n d) in *.
+  assert (Ee : e < 0) by lia.
+  destruct (scaled_neg n d e Ee) as [_ [_ Dn]]. rewrite Dn in Near.
+  unfold sc_num in Near. replace (e <? 0) with true in Near by (symmetry; apply Z.ltb_lt; lia).
+  set (k := - e) in *. assert (Hk : 33 <= k <= 82) by lia.
+  assert (P33 : 2 ^ 33 <= 2 ^ k) by (apply pow2_mono; lia).
+  assert (P32 : 2 ^ 32 <= 2 ^ (k - 1)) by (apply pow2_mono; lia).
+  assert (Pk : 2 ^ k = 2 * 2 ^ (k - 1)).
+  { replace k with (1 + (k - 1)) at 1 by lia. rewrite pow2_split by lia. reflexivity. }
+  change (2 ^ 33) with 8589934592 in P33. change (2 ^ 32) with 4294967296 in P32.
+  set (P := 2 ^ k) in *.
+  (* |2 ns P - 2 M T| <= T *)
+  assert (N1 : - 1000000000 <= 2 * ns * P - 2 * M * 1000000000 <= 1000000000).
+  { assert (A : 2 * ns * P * d = 2 * n * P * 1000000000) by nia.
+    split; apply Z.mul_le_mono_pos_r with (p := d); try assumption; nia. }
+  change (2 ^ (53 - 1)) with 4503599627370496 in HM. change (2 ^ 53) with 9007199254740992 in HM.
+  unfold finish_round. change (prec b64) with 53. change (emax b64) with 971.
+  replace (M =? 0) with false by (symmetry; apply Z.eqb_neq; lia).
+  change (2 ^ 53) with 9007199254740992. change (2 ^ (53 - 1)) with 4503599627370496.
+  destruct (M =? 9007199254740992) eqn:EM.
+  - apply Z.eqb_eq in EM.
+    replace (971 <? e + 1) with false by (symmetry; apply Z.ltb_ge; lia).
+    replace (e + 1) with (- (k - 1)) by lia.
+    apply dur_fin; [lia | change (Z.log2 4503599627370496) with 52; lia | lia |].
+    rewrite EM in N1. lia.
+  - apply Z.eqb_neq in EM.
+    replace (971 <? e) with false by (symmetry; apply Z.ltb_ge; lia).
+    replace e with (- k) by lia.
+    apply dur_fin; [lia | | lia | fold P; lia].
+    assert (Z.log2 M <= Z.log2 9007199254740992) by (apply Z.log2_le_mono; lia).
+    change (Z.log2 9007199254740992) with 53 in *. lia.
+Qed.
+
+(* a decimal with at most nine fractional digits, below 2^20 seconds: text -> f64 -> Duration is exact to the nanosecond *)
+Theorem dec_duration_exact : forall m fc, 0 < m -> 0 <= fc <= 9 -> m < 1048576 * 10 ^ fc ->
+  dur_of_f (dec_to_f b64 (DNum false m (- fc))) = Some (m * 10 ^ (9 - fc)).
+Proof.
+  intros m fc Hm Hfc Hlt. unfold dec_to_f.
+  replace (m =? 0) with false by (symmetry; apply Z.eqb_neq; lia). cbv zeta.
+  assert (L : 0 <= Z.log2 m < 50).
+  { split; [apply Z.log2_nonneg|]. apply Z.log2_lt_pow2; [lia|].
+    assert (10 ^ fc <= 10 ^ 9) by (apply Z.pow_le_mono_r; lia). change (10 ^ 9) with 1000000000 in *.
+    change (2 ^ 50) with 1125899906842624. nia. }
+  assert (G : 1 <= ndigits m <= 16).
+  { unfold ndigits. pose proof (Z.div_le_mono (Z.log2 m * 30103) (49 * 30103) 100000 ltac:(lia) ltac:(lia)) as U.
+    pose proof (Z.div_pos (Z.log2 m * 30103) 100000 ltac:(lia) ltac:(lia)).
+    change (49 * 30103 / 100000) with 14 in U. lia. }
+  replace (400 <? ndigits m + - fc) with false by (symmetry; apply Z.ltb_ge; lia).
+  replace (ndigits m + - fc <? -400) with false by (symmetry; apply Z.ltb_ge; lia).
+  assert (C : fc = 0 \/ fc = 1 \/ fc = 2 \/ fc = 3 \/ fc = 4 \/ fc = 5 \/ fc = 6 \/ fc = 7 \/ fc = 8 \/ fc = 9) by lia.
+  destruct C as [-> | C].
+  { change (0 <=? - 0) with true. cbv iota. change (- 0) with 0. change (10 ^ 0) with 1 in *. change (9 - 0) with 9. change (10 ^ 9) with 1000000000.
+    apply dur_of_rnd_exact; [lia | lia | lia | |]; unfold ge2, lt2; cbn; lia. }
+  assert (Neg : (0 <=? - fc) = false) by (apply Z.leb_gt; lia). rewrite Neg. replace (- - fc) with fc by lia.
+  repeat (destruct C as [-> | C]); try subst fc;
+    (apply dur_of_rnd_exact; [lia | reflexivity | cbn; lia | unfold ge2; cbn; lia | unfold lt2; cbn in *; lia]).
+Qed.
+
+(* ---------- Duration -> f64 seconds (as_secs_f64) -> Duration ---------- *)
+(* shape and accuracy of a rounding in the normal range below 2^52 *)
+Lemma rnd_near_fin : forall n d lo hi, 0 < n -> 0 < d -> ge2 n d lo -> lt2 n d hi -> -1021 <= lo -> hi <= 52 ->
+  exists M k, rnd_pos b64 false n d = FFin false M (- k) /\ 52 - hi <= k <= 52 - lo /\
+    4503599627370496 <= M < 9007199254740992 /\ - d <= 2 * n * 2 ^ k - 2 * M * d <= d.
+Proof.
+  intros n d lo hi Hn Hd Hlo Hhi Hl Hh.
+  pose proof (normal_range b64 n d lo hi ltac:(reflexivity) Hn Hd Hlo Hhi ltac:(cbn; lia)) as [He HM].
+  cbv zeta in He. change (prec b64) with 53 in *.
+  pose proof (m_of_near b64 n d Hn Hd) as Near. cbv zeta in Near.
+  rewrite rnd_pos_unfold. set (e := e_of b64 n d) in *. set (M := m_of b64 n d) in *.
+  assert (Ee : e < 0) by lia.
+  destruct (scaled_neg n d e Ee) as [_ [_ Dn]]. rewrite Dn in Near.
+  unfold sc_num in Near. replace (e <? 0) with true in Near by (symmetry; apply Z.ltb_lt; lia).
+  change (2 ^ (53 - 1)) with 4503599627370496 in HM. change (2 ^ 53) with 9007199254740992 in HM.
+  unfold finish_round. change (prec b64) with 53. change (emax b64) with 971.
+  replace (M =? 0) with false by (symmetry; apply Z.eqb_neq; lia).
+  change (2 ^ 53) with 9007199254740992. change (2 ^ (53 - 1)) with 4503599627370496.
+  destruct (M =? 9007199254740992) eqn:EM.
+  - apply Z.eqb_eq in EM.
+    replace (971 <? e + 1) with false by (symmetry; apply Z.ltb_ge; lia).
+    exists 4503599627370496, (- e - 1). split; [f_equal; lia|]. split; [lia|]. split; [lia|].
+    assert (Pk : 2 ^ (- e) = 2 * 2 ^ (- e - 1)).
+    { replace (- e) with (1 + (- e - 1)) at 1 by lia. rewrite pow2_split by lia. reflexivity. }
+    rewrite EM in Near. rewrite Pk in Near. lia.
+  - apply Z.eqb_neq in EM.
+    replace (971 <? e) with false by (symmetry; apply Z.ltb_ge; lia).
+    exists M, (- e). split; [f_equal; lia|]. split; [lia|]. split; [lia|]. lia.
+Qed.
+
+(* n/d within 1/1024 ns of ns nanoseconds, below 2^21 s *)
+Theorem dur_of_rnd_near : forall n d ns, 0 < n -> 0 < d ->
+  - d <= 1024 * (ns * d - n * 1000000000) <= d ->
+  ge2 n d (-30) -> lt2 n d 21 -> dur_of_f (rnd_pos b64 false n d) = Some ns.
+Proof.
+  intros n d ns Hn Hd Hns Hlo Hhi.
+  destruct (rnd_near_fin n d (-30) 21 Hn Hd Hlo Hhi ltac:(lia) ltac:(lia)) as [M [k [E [Hk [HM Near]]]]].
+  rewrite E. apply dur_fin; [lia | | lia |].
+  - assert (Z.log2 M <= Z.log2 9007199254740992) by (apply Z.log2_le_mono; lia).
+    change (Z.log2 9007199254740992) with 53 in *. lia.
+  - assert (P31 : 2 ^ 31 <= 2 ^ k) by (apply pow2_mono; lia). change (2 ^ 31) with 2147483648 in P31.
+    set (P := 2 ^ k) in *.
+    assert (X1 : 512 * (2 * ns * P - 2 * M * 1000000000) * d <= (P + 512 * 1000000000) * d).
+    { replace (512 * (2 * ns * P - 2 * M * 1000000000) * d)
+        with (P * (1024 * (ns * d - n * 1000000000)) + 512 * 1000000000 * (2 * n * P - 2 * M * d)) by ring.
+      assert (P * (1024 * (ns * d - n * 1000000000)) <= P * d) by (apply Z.mul_le_mono_nonneg_l; lia).
+      lia. }
+    assert (X2 : - ((P + 512 * 1000000000) * d) <= 512 * (2 * ns * P - 2 * M * 1000000000) * d).
+    { replace (512 * (2 * ns * P - 2 * M * 1000000000) * d)
+        with (P * (1024 * (ns * d - n * 1000000000)) + 512 * 1000000000 * (2 * n * P - 2 * M * d)) by ring.
+      assert (P * (- d) <= P * (1024 * (ns * d - n * 1000000000))) by (apply Z.mul_le_mono_nonneg_l; lia).
+      lia. }
+    assert (Y1 : 512 * (2 * ns * P - 2 * M * 1000000000) <= P + 512 * 1000000000)
+      by (apply Z.mul_le_mono_pos_r with (p := d); assumption).
+    assert (Y2 : - (P + 512 * 1000000000) <= 512 * (2 * ns * P - 2 * M * 1000000000)).
+    { apply Z.mul_le_mono_pos_r with (p := d); [assumption|]. lia. }
+    lia.
+Qed.
+
+Lemma rnd_int_exact : forall n, 0 < n < 2097152 ->
+  exists k, 31 <= k <= 52 /\ rnd_pos b64 false n 1 = FFin false (n * 2 ^ k) (- k).
+Proof.
+  intros n Hn.
+  destruct (rnd_near_fin n 1 0 21 ltac:(lia) ltac:(lia)) as [M [k [E [Hk [HM Near]]]]]; try lia.
+  - unfold ge2. cbn. lia.
+  - unfold lt2. cbn. lia.
+  - exists k. split; [lia|]. rewrite E. f_equal. lia.
+Qed.
+
+(* as_secs_f64 followed by from_secs_f64 is the identity below 2^20 seconds *)
+Theorem dur_f64_dur : forall ns, 0 <= ns < 1048576 * 1000000000 -> dur_of_f (secs_f64_of_dur ns) = Some ns.
+Proof.
+  intros ns Hns. unfold secs_f64_of_dur. cbv zeta.
+  pose proof (Z.div_mod ns 1000000000 ltac:(lia)) as DM.
+  pose proof (Z.mod_pos_bound ns 1000000000 ltac:(lia)) as MB.
+  assert (SB : 0 <= ns / 1000000000 < 1048576).
+  { split; [apply Z.div_pos; lia | apply Z.div_lt_upper_bound; lia]. }
+  set (secs := ns / 1000000000) in *. set (nanos := ns mod 1000000000) in *.
+  destruct (secs =? 0) eqn:Es; destruct (nanos =? 0) eqn:En.
+  - apply Z.eqb_eq in Es. apply Z.eqb_eq in En. cbn. f_equal. lia.
+  - apply Z.eqb_eq in Es. apply Z.eqb_neq in En.
+    assert (G : ge2 nanos 1000000000 (-30)) by (unfold ge2; cbn; lia).
+    assert (L : lt2 nanos 1000000000 20) by (unfold lt2; cbn; lia).
+    destruct (rnd_near_fin nanos 1000000000 (-30) 20 ltac:(lia) ltac:(lia) G L ltac:(lia) ltac:(lia)) as [M [k [E _]]].
+    rewrite E. cbn [fadd64]. rewrite <- E.
+    apply dur_of_rnd_exact; [lia | lia | lia | exact G | exact L].
+  - apply Z.eqb_neq in Es. apply Z.eqb_eq in En.
+    destruct (rnd_int_exact secs ltac:(lia)) as [k [_ E]]. rewrite E. cbn [fadd64]. rewrite <- E.
+    apply dur_of_rnd_exact; [lia | lia | lia | unfold ge2; cbn; lia | unfold lt2; cbn; lia].
+  - apply Z.eqb_neq in Es. apply Z.eqb_neq in En.
+    destruct (rnd_int_exact secs ltac:(lia)) as [ka [Hka Ea]]. rewrite Ea.
+    assert (G : ge2 nanos 1000000000 (-30)) by (unfold ge2; cbn; lia).
+    assert (L : lt2 nanos 1000000000 0) by (unfold lt2; cbn; lia).
+    destruct (rnd_near_fin nanos 1000000000 (-30) 0 ltac:(lia) ltac:(lia) G L ltac:(lia) ltac:(lia)) as [Mb [kb [Eb [Hkb [HMb Near]]]]].
+    rewrite Eb. cbn [fadd64].
+    replace (Z.min (- ka) (- kb)) with (- kb) by lia.
+    replace (- kb <? 0) with true by (symmetry; apply Z.ltb_lt; lia).
+    replace (- kb - - kb) with 0 by lia. replace (- ka - - kb) with (kb - ka) by lia. replace (- - kb) with kb by lia.
+    change (2 ^ 0) with 1. rewrite Z.mul_1_r.
+    replace (secs * 2 ^ ka * 2 ^ (kb - ka)) with (secs * 2 ^ kb)
+      by (rewrite <- Z.mul_assoc, <- pow2_split by lia; do 2 f_equal; lia).
+    assert (P52 : 2 ^ 52 <= 2 ^ kb) by (apply pow2_mono; lia). change (2 ^ 52) with 4503599627370496 in P52.
+    set (d := 2 ^ kb) in *.
+    apply dur_of_rnd_near.
+    + nia.
+    + lia.
+    + replace (ns * d - (secs * d + Mb) * 1000000000) with (nanos * d - Mb * 1000000000) by (rewrite DM; ring). lia.
+    + unfold ge2. cbn. nia.
+    + unfold lt2. cbn. nia.
+Qed.
+
+(* ---------- the shortest-digits printer returns digits that read back as the same value ---------- *)
+Definition cand_round (f : fmt) (D t : Z) : fval :=
+  if 0 <=? t then rnd_pos f false (D * 10 ^ t) 1 else rnd_pos f false D (10 ^ (- t)).
+Lemma feq_eq : forall a b, feq a b = true -> a = b.
+Proof.
+  intros a b H. destruct a as [| | |sa ma ea], b as [| | |sb mb eb]; try discriminate. cbn in H.
+  apply andb_true_iff in H. destruct H as [H H3]. apply andb_true_iff in H. destruct H as [H1 H2].
+  apply Bool.eqb_prop in H1. apply Z.eqb_eq in H2. apply Z.eqb_eq in H3. subst. reflexivity.
+Qed.
+Lemma cand_ok_round : forall f x D t, cand_ok f x D t = true -> cand_round f D t = x.
+Proof.
+  intros f x D t H. unfold cand_ok in H. destruct (D <=? 0); [discriminate|]. apply feq_eq in H. symmetry. exact H.
+Qed.
+Theorem shortest_rounds_back : forall fuel f m e lg k D t, 0 < prec f -> canonical f m e ->
+  shortest fuel f (FFin false m e) (fst (rat_of m e)) (snd (rat_of m e)) lg k = (D, t) -> D <> 0 ->
+  cand_round f D t = FFin false m e.
+Proof.
+  induction fuel as [|fu IH]; intros f m e lg k D t Hp Hc H HD.
+  - cbn in H. inversion H. subst. contradiction.
+  - destruct (rat_of_pos m e ltac:(destruct Hc as [[? ?] _]; assumption)) as [Pn Pd].
+    cbn [shortest] in H. cbv zeta in H.
+    set (n := fst (rat_of m e)) in *. set (d := snd (rat_of m e)) in *. set (t0 := lg - (k - 1)) in *.
+    set (D0 := if 0 <=? t0 then n / (d * 10 ^ t0) else n * 10 ^ (- t0) / d) in *.
+    destruct (if 0 <=? t0 then D0 * 10 ^ t0 * d =? n else D0 * d =? n * 10 ^ (- t0)) eqn:Ex.
+    + inversion H. subst D t. unfold cand_round.
+      rewrite <- (rnd_pos_fixpoint f false m e Hp Hc). fold n d.
+      destruct (0 <=? t0) eqn:Et.
+      * apply Z.leb_le in Et. apply Z.eqb_eq in Ex. assert (0 < 10 ^ t0) by (apply Z.pow_pos_nonneg; lia).
+        apply rnd_pos_ratio; try assumption; try lia; nia.
+      * apply Z.leb_gt in Et. apply Z.eqb_eq in Ex. assert (0 < 10 ^ (- t0)) by (apply Z.pow_pos_nonneg; lia).
+        apply rnd_pos_ratio; try assumption; try lia; nia.
+    + destruct (cand_ok f (FFin false m e) D0 t0) eqn:Lo; destruct (cand_ok f (FFin false m e) (D0 + 1) t0) eqn:Hi.
+      * destruct (closer_low n d D0 t0); inversion H; subst D t; apply cand_ok_round; assumption.
+      * inversion H; subst D t; apply cand_ok_round; assumption.
+      * inversion H; subst D t; apply cand_ok_round; assumption.
+      * eapply IH; eassumption.
+Qed.
+
+(* the f64 written for a Duration is a normal number *)
+Lemma secs_f64_fin : forall ns, 0 < ns < 1048576 * 1000000000 ->
+  exists M k, secs_f64_of_dur ns = FFin false M (- k) /\ 4503599627370496 <= M < 9007199254740992 /\ 31 <= k <= 82.
+Proof.
+  intros ns Hns. unfold secs_f64_of_dur. cbv zeta.
+  pose proof (Z.div_mod ns 1000000000 ltac:(lia)) as DM.
+  pose proof (Z.mod_pos_bound ns 1000000000 ltac:(lia)) as MB.
+  assert (SB : 0 <= ns / 1000000000 < 1048576).
+  { split; [apply Z.div_pos; lia | apply Z.div_lt_upper_bound; lia]. }
+  set (secs := ns / 1000000000) in *. set (nanos := ns mod 1000000000) in *.
+  assert (G : nanos <> 0 -> ge2 nanos 1000000000 (-30)) by (intros; unfold ge2; cbn; lia).
+  assert (L : lt2 nanos 1000000000 0) by (unfold lt2; cbn; lia).
+  assert (Ga : secs <> 0 -> ge2 secs 1 0) by (intros; unfold ge2; cbn; lia).
+  assert (La : lt2 secs 1 21) by (unfold lt2; cbn; lia).
+  destruct (secs =? 0) eqn:Es; destruct (nanos =? 0) eqn:En.
+  - apply Z.eqb_eq in Es. apply Z.eqb_eq in En. lia.
+  - apply Z.eqb_eq in Es. apply Z.eqb_neq in En.
+    destruct (rnd_near_fin nanos 1000000000 (-30) 0 ltac:(lia) ltac:(lia) (G En) L ltac:(lia) ltac:(lia)) as [M [k [E [Hk [HM _]]]]].
+    rewrite E. cbn [fadd64]. exists M, k. repeat split; lia.
+  - apply Z.eqb_neq in Es. apply Z.eqb_eq in En.
+    destruct (rnd_near_fin secs 1 0 21 ltac:(lia) ltac:(lia) (Ga Es) La ltac:(lia) ltac:(lia)) as [M [k [E [Hk [HM _]]]]].
+    rewrite E. cbn [fadd64]. exists M, k. repeat split; lia.
+  - apply Z.eqb_neq in Es. apply Z.eqb_neq in En.
+    destruct (rnd_int_exact secs ltac:(lia)) as [ka [Hka Ea]]. rewrite Ea.
+    destruct (rnd_near_fin nanos 1000000000 (-30) 0 ltac:(lia) ltac:(lia) (G En) L ltac:(lia) ltac:(lia)) as [Mb [kb [Eb [Hkb [HMb _]]]]].
+    rewrite Eb. cbn [fadd64].
+    replace (Z.min (- ka) (- kb)) with (- kb) by lia.
+    replace (- kb <? 0) with true by (symmetry; apply Z.ltb_lt; lia).
+    replace (- kb - - kb) with 0 by lia. replace (- ka - - kb) with (kb - ka) by lia. replace (- - kb) with kb by lia.
+    change (2 ^ 0) with 1. rewrite Z.mul_1_r.
+    replace (secs * 2 ^ ka * 2 ^ (kb - ka)) with (secs * 2 ^ kb)
+      by (rewrite <- Z.mul_assoc, <- pow2_split by lia; do 2 f_equal; lia).
+    assert (P52 : 2 ^ 52 <= 2 ^ kb) by (apply pow2_mono; lia). change (2 ^ 52) with 4503599627370496 in P52.
+    set (d := 2 ^ kb) in *.
+    assert (A1 : 0 < secs * d + Mb) by nia.
+    assert (A2 : ge2 (secs * d + Mb) d 0) by (unfold ge2; cbn; nia).
+    assert (A3 : lt2 (secs * d + Mb) d 21) by (unfold lt2; cbn; nia).
+    destruct (rnd_near_fin (secs * d + Mb) d 0 21 A1 ltac:(lia) A2 A3 ltac:(lia) ltac:(lia)) as [M [k [E [Hk [HM _]]]]].
+    rewrite E. exists M, k. repeat split; lia.
+Qed.
+
+(* Duration -> f64 -> shortest digits D*10^t -> f64 -> Duration is the identity below 2^20 s, whenever the digit search
+   returns digits (it returns (0,0) only when its fuel of 20 digit counts runs out) *)
+Theorem duration_digits_roundtrip : forall ns, 0 < ns < 1048576 * 1000000000 ->
+  exists m e, secs_f64_of_dur ns = FFin false m e /\ canonical b64 m e /\
+    forall lg D t, shortest 20 b64 (FFin false m e) (fst (rat_of m e)) (snd (rat_of m e)) lg 1 = (D, t) -> D <> 0 ->
+      dur_of_f (cand_round b64 D t) = Some ns.
+Proof.
+  intros ns Hns. destruct (secs_f64_fin ns Hns) as [M [k [E [HM Hk]]]].
+  exists M, (- k). split; [exact E|].
+  assert (C : canonical b64 M (- k)).
+  { unfold canonical. change (prec b64) with 53. change (emin b64) with (-1074). change (emax b64) with 971.
+    change (2 ^ 53) with 9007199254740992. change (2 ^ (53 - 1)) with 4503599627370496. lia. }
+  split; [exact C|].
+  intros lg D t H HD. rewrite (shortest_rounds_back 20 b64 M (- k) lg 1 D t ltac:(reflexivity) C H HD).
+  rewrite <- E. apply dur_f64_dur. lia.
+Qed.
